@@ -182,8 +182,8 @@ def run_trace(spec):
                 scale=spec.get("scale", 1), phase=spec.get("phase", 0), cls=cls)
     err = None
     try:
-        with watchdog(spec.get("watchdog", 30)):
-            for rev in spec["revs"]:
+        for rev in spec["revs"]:
+            with watchdog(spec.get("watchdog", 30)):      # per event: the budget must not depend on the length of the trace
                 s.apply(rev)
     except (Exception, Livelock) as ex:  # a harness-level failure (e.g. livelock) is reported, not hidden
         err = "%s: %s" % (type(ex).__name__, ex)
